@@ -330,3 +330,53 @@ def relax_width_rule(chk, cid, prog, cfgname):
 def _dnf(e):
     from .r2_argcheck import dnf
     return dnf(e)
+
+
+def ilu_fill_tolerance_rule(chk, cid, prog, p, cfgname):
+    """ilu_?pivotL replaces a zero pivot by its argument fill_tol, which ?gsitrf passes as amax[..] * fill_tol (amax = largest magnitude of the
+    column of A).  For a column that holds only zeros amax is 0 and the replacement would be 0 again: every call must be dominated by a test of
+    that very amax entry against zero (which then sets it to ILU_FillTol).  The relaxed-supernode branch had the test, the panel branch did not
+    (repaired on the pinned tree)."""
+    from ..facts import strip, callee_name, canon, loc
+    from ..ir import pretty
+    f = prog.func(p + 'gsitrf')
+    if f is None:
+        from ..run import AnalysisBroken
+        raise AnalysisBroken('%sgsitrf not found' % p)
+    chk.saw(unit=f.unit, func=f.unit + ':' + f.name)
+    cfg = prog.cfg(f)
+    dom = cfg.dominators()
+    node_of = {}
+    for cn in cfg.nodes:
+        if cn.ast is not None and cn.kind in ('stmt', 'cond', 'return', 'switch'):
+            for x in cn.ast.walk():
+                node_of.setdefault(id(x), cn.id)
+    tests = {}
+    for cn in cfg.nodes:
+        if cn.kind == 'cond' and cn.ast is not None:
+            c = strip(cn.ast)
+            if c.k == 'Binary' and c.a['op'] == '==' and strip(c.c[0]).k == 'Index' and strip(strip(c.c[0]).c[0]).a.get('name') == 'amax':
+                from .refine import _zero
+                if _zero(c.c[1]) == 0:
+                    tests.setdefault(canon(c.c[0], ids=False), []).append(cn.id)
+    n = 0
+    for x in f.body.walk():
+        if x.k == 'Call' and callee_name(x) == 'ilu_%spivotL' % p:
+            am = [y for a in x.c[1:] for y in a.walk() if y.k == 'Index' and strip(y.c[0]).a.get('name') == 'amax']
+            if not am:
+                continue
+            n += 1
+            key = canon(am[0], ids=False)
+            inst = '%s:replacement-pivot-nonzero@%s' % (f.name, key)
+            k = node_of.get(id(x))
+            ok = k is not None and any(t in dom.get(k, set()) for t in tests.get(key, []))
+            if ok:
+                chk.ok(cid, inst, sample='`%s == 0` is tested before the call' % key)
+            else:
+                chk.violate(cid, inst, loc(f, x), f.name,
+                            'the replacement value `%s * fill_tol` handed to ilu_%spivotL is zero for a column of A that holds only zeros: no test `%s == 0` dominates '
+                            'this call, so U gets a zero diagonal entry although the pivot is counted as replaced' % (key, p, key), cfgname=cfgname)
+    if n < 2:
+        from ..run import AnalysisBroken
+        raise AnalysisBroken('%s: %d calls of ilu_%spivotL with an amax factor, expected 2' % (f.name, n, p))
+    return n
